@@ -8,9 +8,9 @@ from ..runner import run_check
 # (Proto/WhenAll.lean, Proto/StopWhen.lean).  The other scenarios of that file run under C04.
 WA_SCENARIOS = ["wa1_stop", "wa2_race", "wa2_stop", "wa2_valinl_stop", "wa3_fail", "wa3_fail_inl", "war2_stop"]
 SW_SCENARIOS = ["sw_race", "sw_stop", "sw_mix", "sw_trigger", "sw_src_err"]
-QUICK = dict(preemptions=2, max_execs=120)
-THOROUGH = dict(preemptions=3, max_execs=20000)
-RANDOM = (40, 3000)
+QUICK = dict(preemptions=2, max_execs=1000)
+THOROUGH = dict(preemptions=3, max_execs=60000)
+RANDOM = (300, 5000)
 
 
 def atomic_parts():
